@@ -50,6 +50,24 @@ MISSED = {
     "C19-e": "include cycles were not among the failure scenarios; added (self-include and two-file cycle)",
     "C19-f": "schemas with several bases and a failure in one of them were not among the scenarios; added",
     "C20-e": "a factory call was never retried after a failing handler; added the fail-fix-retry sequence",
+    "C02-g": "section names never had letters whose case folding differs from lower-casing ('Straße', 'KÜCHE', Cyrillic); free section names now do",
+    "C03-g": "the line-shape corpus had no header with such letters; added '<Item Straße>', '<KÜCHE École/>', '<Дом ſ>'",
+    "C04-g": "the function was only called directly; added the same strings inside configurations (as a value, in a %define read once and twice)",
+    "C05-h": "no environment variable was named like a %define name; every name of the sequences now also exists in the environment",
+    "C06-g": "fragment names never differed from their includer's only in letter case; the cutter now makes such twins",
+    "C06-h": "an open file was never handed over together with a URL naming another location; added the entry 'open scratch copy + URL of the real place'",
+    "C08-h": "faulty texts were never loaded with overrides; a third of them now also with an override restating a top-level key; an exception outside the configuration-error family counts as a missing position",
+    "C10-g": "type-name uniqueness was never tried across <import src>; added (local before import, two imports, import before local)",
+    "C10-h": "the wildcard rule was only tried with the attribute absent, not with attribute=''; added",
+    "C11-g": "schemas were always loaded with the default registry; added an application registry (extra name, replaced stock datatype) with %import / <import> / in-place forms",
+    "C11-h": "bases always sat next to the extending schema; added a base in another directory with its own relative references and decoys",
+    "C13-h": "the digest did not include the lookup tables behind getinfo() (_keymap/_attrmap); it does now",
+    "C14-g": "every load with overrides used a fresh loader; they now alternate with one ExtendedConfigLoader performing the load twice",
+    "C15-h": "layout variants never met cased non-ASCII names (see C02-g)",
+    "C16-h": "handler callables were always truthy; added callables whose truth value is False",
+    "C17-g": "no section name contained '$'; added",
+    "C18-g": "fragments were only tried on a single base; added every position of a two- and three-base extends",
+    "C19-g": "loads were never ended by something that is not an Exception; added KeyboardInterrupt / SystemExit raised by a datatype, at every depth",
     "C20-f": "the same logger name was never configured twice with different 'propagate'; added",
 }
 
